@@ -6,6 +6,7 @@ children were elaborated, repeated calls — runs in a fresh process; the serial
 module exported on the way) must equal, byte for byte, the package a fresh process gives for a single call.
 Afterwards every elaborated module must refuse additions.
 """
+import copy
 import hashlib
 import io
 import itertools
@@ -69,6 +70,16 @@ def run_history(case):
                     frozen = False
                 except Exception:
                     pass
+                # … nor the re-filing of an attribute it already holds (which would move it to the end of its container)
+                for held in list(m.ports.values())[:1] + list(m.instances.values())[:1] + list(m.signals.values())[:1]:
+                    for how in (lambda: m.add(held), lambda: setattr(m, held.name, held)):
+                        try:
+                            how()
+                            frozen = False
+                        except Exception:
+                            pass
+        if not frozen and "error" not in out:
+            out["refiled"] = digest(h.to_proto(inc.mods[d["top"]])) != out["final"]
         out["frozen"] = frozen
     except Exception as ex:  # noqa
         out["error"] = f"{type(ex).__name__}: {str(ex)[-200:]}"
@@ -141,7 +152,19 @@ def corpus_designs():
            "insts": [{"n": "m", "of": {"k": "module", "name": "Mid"}, "conns": [["t", {"k": "sig", "n": "u"}]]},
                      {"n": "c", "of": {"k": "module", "name": "Child"}, "conns": [["s", {"k": "sig", "n": "u"}], ["bp", {"k": "bundle", "n": "b"}]]}]}
     d = {"bundles": [bdef], "modules": [child, mid, top], "top": "Top"}
-    return [{"design": d, "style": st} for st in ("proc", "class", "gen")]
+    # a module reached only through an instance bundle (h.Pair), holding a Pair of its own
+    import gen_design
+    R = copy.deepcopy(gen_design.LEAVES[3])
+    pmid = {"name": "PMid", "sigs": [{"n": "a", "w": 1, "port": True, "dir": "none"}, {"n": "b", "w": 1, "port": True, "dir": "none"}, {"n": "x", "w": 1, "port": False, "dir": "none"},
+                                     {"n": "y", "w": 1, "port": False, "dir": "none"}], "bundles": [],
+            "insts": [{"n": "legs", "of": R, "pair": ["p", "n"], "conns": [["p", {"k": "sig", "n": "a"}], ["n", {"k": "anon", "fields": [["p", {"k": "sig", "n": "x"}], ["n", {"k": "sig", "n": "y"}]]}]]},
+                      {"n": "r1", "of": R, "conns": [["p", {"k": "sig", "n": "x"}], ["n", {"k": "sig", "n": "b"}]]},
+                      {"n": "r2", "of": R, "conns": [["p", {"k": "sig", "n": "y"}], ["n", {"k": "sig", "n": "b"}]]}]}
+    ptop = {"name": "Top", "sigs": [{"n": "u", "w": 1, "port": True, "dir": "none"}, {"n": "v", "w": 1, "port": True, "dir": "none"}, {"n": "w", "w": 1, "port": False, "dir": "none"}], "bundles": [],
+            "insts": [{"n": "halves", "of": {"k": "module", "name": "PMid"}, "pair": ["p", "n"],
+                       "conns": [["a", {"k": "sig", "n": "u"}], ["b", {"k": "anon", "fields": [["p", {"k": "sig", "n": "v"}], ["n", {"k": "sig", "n": "w"}]]}]]}]}
+    d2 = {"bundles": [copy.deepcopy(gen_design.DIFF)], "modules": [pmid, ptop], "top": "Top"}
+    return [{"design": d, "style": st} for st in ("proc", "class", "gen")] + [{"design": d2, "style": st} for st in ("proc", "class")]
 
 
 def run(ctx):
@@ -229,7 +252,7 @@ def run(ctx):
             if res[how][part] != res["never"][part]:
                 rep.fail("pred", {"stream": "programs", "case": {"early": how, "part": part}},
                          {"why": f"the package depends on an earlier {how}: {part}", "with": res[how][part], "without": res["never"][part]})
-    bjobs2 = [{"first": f, "fault": x} for x in ("flat_names", "extra_member", "both") for f in ("never", "elaborate", "to_proto")]
+    bjobs2 = [{"first": f, "fault": x} for x in ("flat_names", "extra_member", "both", "array_flat_ref", "array_flat_noconn") for f in ("never", "elaborate", "to_proto")]
     bres = common.pmap_fresh(program_bad_new_parent, bjobs2)
     for j, r in zip(bjobs2, bres):
         rep.count("programs", json.dumps(j))
@@ -316,6 +339,12 @@ def program_bad_new_parent(job):
         par.i = child(link_tx=par.a, link_rx=par.b)
     elif job["fault"] == "extra_member":
         par.i = child(link=h.AnonymousBundle(tx=par.a, rx=par.b, zz=par.c))
+    elif job["fault"] == "array_flat_ref":
+        # an array of the child, and a reference to one of its ports by the flattened name
+        par.i = 2 * child(link=h.AnonymousBundle(tx=par.a, rx=par.b))
+        par.r2 = h.R(r=1)(p=par.i.link_tx, n=par.c)
+    elif job["fault"] == "array_flat_noconn":
+        par.i = 2 * child(link_tx=h.NoConn(), link_rx=par.b)
     else:
         par.i = child(link=h.AnonymousBundle(tx=par.a, rx=par.b), link_tx=par.c)
     try:
